@@ -220,7 +220,7 @@ func init() {
 	register("C04", func(r *engine.Run) {
 		maxLen := 2
 		if thorough(r) {
-			maxLen = 3
+			maxLen = 4
 		}
 		r.Rule = fmt.Sprintf("truth table: 4 states (target unmapped / file / empty collection / non-empty collection, plus a nested file and an unrelated file) x {PUT,DELETE} x If-Match x If-None-Match over {unset,*,\"deadbeef\",\"0\",unquoted,\"\",current,weak,2 stale variants} on 3 paths; agreement history (PUT,GET,HEAD,PROPFIND,conditional PUT/DELETE) per file-capable path; codec: every tag of length <=%d over 9 bytes; pass-through: every header pair over 9 values to both CalDAV and CardDAV. Non-trivial = at least one conditional header is set; distinct by (state, request) / tag / header pair", maxLen)
 		r.Explanation = "explicit-state exploration of conditional requests on the real file server against the C04 truth table (reference model davModel/condRefusals); public ConditionalMatch helpers enumerated over all short tags; header pass-through observed by recording backends"
